@@ -1313,7 +1313,7 @@ pub trait Parser<T> {
 //@@ end
 
 //@@ fn src/structs.rs | impl Parser for ParseFallback | fn eval
-//@@ unit structs.ParseFallback.eval tags=C05,C06,C20
+//@@ unit structs.ParseFallback.eval tags=C05,C06,C20,C14
 //@@ members
     open spec fn pwf(&self) -> bool { self.inner.pwf() }
     /// inner success: its value and its state; inner failure: the default iff the error is catchable, and
@@ -1332,7 +1332,7 @@ pub trait Parser<T> {
 //@@ end
 
 //@@ fn src/structs.rs | impl Parser for ParseFallbackWith | fn eval
-//@@ unit structs.ParseFallbackWith.eval tags=C05,C06,C20
+//@@ unit structs.ParseFallbackWith.eval tags=C05,C06,C20,C14
 //@@ members
     open spec fn pwf(&self) -> bool { self.inner.pwf() && self.fallback.requires(()) }
     open spec fn rel(&self, pre: State, r: Result<T, Error>, post: State) -> bool {
@@ -2237,7 +2237,7 @@ proof {
 //@@ end
 
 //@@ fn src/args.rs | mod inner | impl State | fn swap_comps
-//@@ unit args.State.swap_comps tags=C20
+//@@ unit args.State.swap_comps tags=C20,C14
 //@@ spec
         ensures
             final(self).same_but_comp(*old(self)) && final(other).same_but_comp(*old(other)), // #only_comp_moves
@@ -2253,7 +2253,7 @@ impl crate::complete_gen::Complete {
 }
 
 //@@ fn src/args.rs | mod inner | impl State | fn touching_last_remove
-//@@ unit args.State.touching_last_remove tags=C20
+//@@ unit args.State.touching_last_remove tags=C20,C14
 //@@ ret r
 //@@ spec
         requires
